@@ -402,6 +402,10 @@ async def _run_scenario(loop, scn):
                 await loop.settle()
                 observe(idx, ev, ["pool ev other %d" % sid], "none", n_log0)
             elif kind in ("quit", "close", "vanish", "epsvarg"):
+                if gated and kind in ("quit", "epsvarg"):
+                    # commands are handled one at a time: a command behind a suspended PASV/EPSV waits for it (only the
+                    # peer going away - close, reset - ends the session at once)
+                    continue
                 if kind == "quit":
                     s.raw.send("QUIT")
                 elif kind == "epsvarg":
